@@ -7,5 +7,6 @@ INVARIANT NeverUnlocks
 INVARIANT NeverChanges
 INVARIANT NeverWritesKeys
 INVARIANT NeverAnyPin
+INVARIANT NeverLinkFault
 VIEW View
 CHECK_DEADLOCK FALSE
